@@ -14,10 +14,8 @@ if inrepo:
     if sh('git -C /repo status --porcelain').stdout.strip():
         print('refusing: /repo is dirty'); sys.exit(2)
 else:
-    tree, out = '/tmp/mut/seedrun', '/tmp/mut/seedout'
-    if not os.path.isdir(tree):
-        sh(f'git -C /repo worktree add -q --detach {tree} HEAD')
-    sh(f'git -C {tree} checkout -q --detach $(git -C /repo rev-parse HEAD) && git -C {tree} checkout -q . && git -C {tree} clean -fdq')
+    tree, out = f'/tmp/mut/seedrun-{os.getpid()}', f'/tmp/mut/seedout-{os.getpid()}'
+    sh(f'git -C /repo worktree add -q --detach {tree} HEAD')
     os.makedirs(out, exist_ok=True)
 a = sh(f'git -C {tree} apply {patch}')
 if a.returncode != 0:
@@ -45,6 +43,6 @@ finally:
     if inrepo:
         sh('git -C /verif checkout -- evidence 2>/dev/null; rm -rf /verif/replays')
     else:
-        sh(f'rm -rf {out}/replays {out}/work')
+        sh(f'git -C /repo worktree remove --force {tree}; rm -rf {out}')
 with open('/verif/work/seeded_results.jsonl', 'a') as f:
     f.write(json.dumps({'name': name, 'patch': patch, 'tier': tier, 'in_repo': inrepo, 'results': results, 'detected': any(v['exit'] == 1 for v in results.values())}) + '\n')
